@@ -221,7 +221,7 @@ def build_classes(spec: Dict[str, Any], hooks: Optional[Dict[str, Any]] = None) 
     for r in spec["roots"]:
         classes[r["name"]] = F.make_group(r["name"], root_data=r["cols"], frameworks={F.FW_SHORT[r["fw"]]}, hooks=hooks)
     for g in spec["groups"]:
-        classes[g["name"]] = F.make_group(g["name"], derived=g["features"], frameworks={F.FW_SHORT[g["fw"]]}, hooks=hooks, inplace=bool(spec.get("inplace")))
+        classes[g["name"]] = F.make_group(g["name"], derived=g["features"], frameworks={F.FW_SHORT[g["fw"]]}, hooks=hooks, inplace=g.get("style", bool(spec.get("inplace"))))
     return classes
 
 
@@ -615,6 +615,27 @@ def overlap_on_shared_fw(exp: Dict[str, Any], events: List[Dict[str, Any]]) -> b
     return False
 
 
+def overlap_all_in_place(spec: Dict[str, Any], exp: Dict[str, Any], events: List[Dict[str, Any]]) -> bool:
+    """True when every pair of feature-group steps that overlapped on a shared framework object belongs to Pandas groups that
+    write their column into the shared frame itself (style in place / Series): no step replaces the object, so the
+    lost-update finding's input class (a step writing back ITS OWN COPY of the data) does not apply."""
+    style = {g["name"]: g.get("style", bool(spec.get("inplace"))) for g in spec.get("groups", [])}
+    steps = exp["steps"]
+    open_: Set[int] = set()
+    for k, i in obs_of(exp, events):
+        if steps[i]["kind"] != "fg":
+            continue
+        if k == "b":
+            for j in open_:
+                if steps[j].get("fw") == steps[i].get("fw"):
+                    if steps[i].get("fw") != "PandasDataFrame" or not style.get(steps[i].get("group")) or not style.get(steps[j].get("group")):
+                        return False
+            open_.add(i)
+        else:
+            open_.discard(i)
+    return True
+
+
 def mp_unuploaded_tfs_source(exp: Dict[str, Any]) -> bool:
     """Input class of a known MULTIPROCESSING defect: a transform step reads (downloads) the data of a producer step that the
     planner did not mark `need_to_upload` - the mark is keyed by the producer FeatureSet's arbitrary representative
@@ -734,7 +755,7 @@ def build_link_request(spec: Dict[str, Any], hooks: Optional[Dict[str, Any]] = N
                                           extra=extra_fn(s["name"]) if extra_fn else None)
     c = spec["consumer"]
     for g in link_groups(spec):
-        classes[g["name"]] = F.make_group(g["name"], derived=g["features"], frameworks={F.FW_SHORT[g["fw"]]}, hooks=hooks, inplace=bool(spec.get("inplace")),
+        classes[g["name"]] = F.make_group(g["name"], derived=g["features"], frameworks={F.FW_SHORT[g["fw"]]}, hooks=hooks, inplace=g.get("style", bool(spec.get("inplace"))),
                                           extra=extra_fn(g["name"]) if extra_fn else None)
     links = set()
     for l in spec["links"]:
